@@ -106,6 +106,14 @@ Proof.
   intros H. destruct equiv_not_identity as (Hu & Hv & He & Hn). apply Hn. now apply H.
 Qed.
 
+(** converting and then masking = masking and then converting the visible cells *)
+Lemma convert_commutes_mask : forall u v m l,
+  mask_with m (map (convert u v) l) = map (option_map (convert u v)) (mask_with m l).
+Proof.
+  intros u v m. induction m as [|b mt IH]; intros [|x lt]; simpl; try reflexivity.
+  rewrite IH. destruct b; reflexivity.
+Qed.
+
 (** * The memo *)
 
 Definition faithful (l : list uent) : Prop :=
